@@ -114,7 +114,8 @@ def r_count(ctx, prog, codecs):
                 atoms = atoms_at(f, tt, cs[0].block)
                 lt = has_atom(atoms, 'ult', ('param', 2), k)
                 other = [a for a in atoms if a[0] == 'cmp' and ('param', 2) in (a[2], a[3]) and not
-                         (a[1] in ('ult',) and a[2] == ('param', 2) and a[3] == k)]
+                         ((a[1] in ('ult',) and a[2] == ('param', 2) and a[3] == k) or
+                          (a[1] in ('ugt',) and a[3] == ('param', 2) and a[2] == k))]       # k > esi is the same guard
                 if want == 'src':
                     ok = inc and lt and not other
                     why = '%s must be incremented by one exactly when esi < nb_source_symbols (guards on esi found: %s)' % (
@@ -151,10 +152,7 @@ def r_it_step3(ctx, prog):
     for lp in f.loops.values():
         if lp.depth != 1:
             continue
-        lr = loop_range(f, lp, tt)
-        if lr is None or lr.step != -1 or lr.pred != 'sge' or lr.bound != ('const', 0):
-            continue
-        # it must be the loop that contains the recursive re-injection
+        # the step-3 loop is the one that contains the recursive re-injection (whatever the spelling of its bound)
         if not any(c.callee == IT for c in calls_in_loop(f, lp)):
             continue
         found += 1
@@ -180,7 +178,7 @@ def r_it_step3(ctx, prog):
         ctx.instance(R, bad is None, bad or lp.header.term(), IT + ':step3-exits',
                      'the step-3 loop can be left before the list of degree-1 equations is exhausted (exit at %s): symbols that '
                      'are determined stay undecoded, depending on the arrival order' % (bad.loc() if bad else ''))
-    ctx.need(found == 1, R, 'step-3 loop (descending work list with recursive re-injection) not recognised (%d candidates)' % found)
+    ctx.need(found == 1, R, 'step-3 loop (work list with recursive re-injection) not recognised (%d candidates)' % found)
 
 
 # ------------------------------------------------------------------ R-SETAVAIL
